@@ -23,9 +23,15 @@ static LIVE: AtomicU64 = AtomicU64::new(0);
 static PEAK: AtomicU64 = AtomicU64::new(0);
 /// requests above this size make a worker exit with code 77 before the allocation is attempted
 static HARD_CAP: AtomicU64 = AtomicU64::new(u64::MAX);
+/// bookkeeping is only done in worker processes: shared counters would otherwise make every
+/// allocation of every check bounce one cache line between all cores
+static COUNTING: std::sync::atomic::AtomicBool = std::sync::atomic::AtomicBool::new(false);
 
 unsafe impl GlobalAlloc for CountingAlloc {
     unsafe fn alloc(&self, layout: Layout) -> *mut u8 {
+        if !COUNTING.load(Ordering::Relaxed) {
+            return System.alloc(layout);
+        }
         note(layout.size() as u64);
         let p = System.alloc(layout);
         if !p.is_null() {
@@ -35,10 +41,15 @@ unsafe impl GlobalAlloc for CountingAlloc {
         p
     }
     unsafe fn dealloc(&self, ptr: *mut u8, layout: Layout) {
-        LIVE.fetch_sub(layout.size() as u64, Ordering::Relaxed);
+        if COUNTING.load(Ordering::Relaxed) {
+            LIVE.fetch_sub(layout.size() as u64, Ordering::Relaxed);
+        }
         System.dealloc(ptr, layout)
     }
     unsafe fn alloc_zeroed(&self, layout: Layout) -> *mut u8 {
+        if !COUNTING.load(Ordering::Relaxed) {
+            return System.alloc_zeroed(layout);
+        }
         note(layout.size() as u64);
         let p = System.alloc_zeroed(layout);
         if !p.is_null() {
@@ -48,6 +59,9 @@ unsafe impl GlobalAlloc for CountingAlloc {
         p
     }
     unsafe fn realloc(&self, ptr: *mut u8, layout: Layout, new_size: usize) -> *mut u8 {
+        if !COUNTING.load(Ordering::Relaxed) {
+            return System.realloc(ptr, layout, new_size);
+        }
         note(new_size as u64);
         let p = System.realloc(ptr, layout, new_size);
         if !p.is_null() {
@@ -101,6 +115,9 @@ pub fn serve(exec: impl Fn(&str, &[u8]) -> String) -> ! {
         libc::setrlimit(libc::RLIMIT_AS, &lim);
     }
     HARD_CAP.store(1 << 30, Ordering::Relaxed);
+    // counting starts here; LIVE may briefly go "negative" (wrap) for blocks allocated before,
+    // which only affects the informational peak figure, not the per-request maximum
+    COUNTING.store(true, Ordering::SeqCst);
     let stdin = std::io::stdin();
     let mut line = String::new();
     loop {
